@@ -27,7 +27,8 @@ CHECKS = {
         "aliases rooted at them) equals substitution on field references under a binder environment (Spec.Subst); corollaries empty_id, "
         "nonmatching_id (no key occurs => identity). Model run against the real rewriter on random full-grammar ASTs x 12 alias maps "
         "(overlapping path/owner keys, built-in function names, named-parameter names, lambda variables), input compared before/after, "
-        "fresh-name bijection + inverse executed.",
+        "fresh-name bijection + inverse executed. Props/C14Bij.lean: `bijection_roundtrip` - for every tree of the parser's shape and every renaming of field names to names that do not "
+        "occur in it, alias(inverse)(alias(forward) t) = t (lambda variables, function names and parameter names among the renamed names included).",
    note="Trusted: Lean kernel, standard axioms, Spec/Subst.lean, harness. Non-mutation of the Python input object and the bijection round trip are "
         "checked by execution (partial: not theorems). The real rewriter was repaired first (fix: 84f2034: function names, parameter names, lambda variables).",
    design="§6 C14", technique="Lean 4 refinement proof (mutual structural recursion over the uniform AST) + differential correspondence"),
@@ -53,7 +54,8 @@ CHECKS = {
         "full-grammar trees, where the renderings come from an independent reference printer written in Lean from OData 4.01 §5.1.1.14; "
         "theorems tie the model's levels to the extracted yacc declaration and to the specification's table; the token-level round-trip "
         "theorem parse_printToks (every printable tree, both renderings, every whitespace style) is in Props/C05Roundtrip.lean; Props/C05Text.lean lifts it to TEXT "
-        "(text_grouping: the minimally and the fully parenthesised text of any tree parse to the same tree; text_parens_win), via the character-level theorem C13.parse_text.",
+        "(text_grouping: the minimally and the fully parenthesised text of any tree parse to the same tree; text_parens_win), via the character-level theorem C13.parse_text; "
+        "Props/Accepted.lean `grouping_accepted`: the same for the tree ANY accepted ASCII filter text parses to (hypotheses discharged by C10.parse_image and C13A.accepted_lexable).",
    note="Trusted: Lean kernel, standard axioms, Spec/RefPrinter.lean, harness. Modelled, not verified: SLY's LALR(1) construction and driver, CPython's re "
         "(tied by the tie theorems on the extracted rules/productions/precedence and by the differential run incl. exhaustive token sequences in C10).",
    design="§6 C05", technique="Lean 4 proof over hand-written parser model + generated-table tie theorems + differential correspondence on reference renderings"),
@@ -109,7 +111,8 @@ CHECKS = {
         "geography prefixes and designators, T / Z, the exponent e), parseText s = ok e' with e' = e up to the letter case of Boolean / Float spellings (the two literal kinds that keep the text as "
         "written); `lex_respell` / `lex_respell_ins` are the token-level forms. Executed: every accepted filter x whitespace "
         "re-layouts (10 kinds of runs, BWS insertion) x keyword case masks is parsed by model and real parser (exact agreement) and judged on the real "
-        "code by normalised-AST equality and by equality of all six backends' outputs.",
+        "code by normalised-AST equality and by equality of all six backends' outputs. Props/Accepted.lean `respell_accepted`: parse_respell for the tree ANY accepted ASCII filter text "
+        "parses to (hypotheses discharged by C10.parse_image and C13A.accepted_lexable).",
    note="Trusted: Lean kernel, standard axioms, Spec/Respell.lean (what counts as a re-spelling), harness. Backend equality of the two spellings is executed, not proved (it follows from AST equality "
         "except for the Boolean / Float spellings, whose value-level invariance is bool_value_case + the executed comparison). Non-ASCII case twins (dotless i, long s, Kelvin) also match under re.I: outside the property, exercised by C10. fix: 7c0cf2f (TRUE on SQLAlchemy), 531c925 (lower-case t/z).",
    design="§6 C19", technique="Lean 4 proof (style-generic round trip; character-level lexing under arbitrary whitespace runs and keyword case: every scanner commutes with a letter-case change, parser commutes with normalisation) + differential correspondence on re-spelled filters + executed backend comparison"),
@@ -158,7 +161,9 @@ CHECKS = {
         "Both hypotheses hold for every accepted filter: callsOk by C10.parse_image (Props/C10Image.lean), durOk by C06.accepted_litOk (Props/C06Image.lean, ASCII texts). "
         "ORM backends (Props/C12Orm.lean): `dj_never_leaks_welltyped`, `sa_never_leaks_welltyped` - for EVERY tree in the parser's image (printable) that is well-typed in Spec/TypesStrict under any "
         "field typing (every built-in, every overload, every literal kind, null wherever a primitive is expected) the models of the Django visitor and of the SQLAlchemy ORM / Core visitors return a "
-        "translation, a library exception or the documented NotImplementedError, never a Python-level error ('unmodelled': geography literals and geo functions, covered by execution).",
+        "translation, a library exception or the documented NotImplementedError, never a Python-level error ('unmodelled': geography literals and geo functions, covered by execution). "
+        "Props/C12Complete.lean: `dj_columns`, `sa_columns` - the columns of a successful ORM translation are exactly the filter's field references in document order (with C08's dj_params / "
+        "sa_params: every field and literal is represented, for every tree). The three visitor models are compared with the real visitors on the whole node-kind x position matrix.",
    note="Trusted: Lean kernel, standard axioms, Spec/TypesStrict.lean, harness. Partial: beyond the visitor models (Model/Orm.lean, tied by the outcome correspondences of C02 / C03 / C12) Django's and "
         "SQLAlchemy's internals are not modelled; a refusal raised by the host ORM itself (Django FieldError) is counted as a refusal. Nine leaks were repaired first "
         "(fix: b3ff485 c4949ac 0ae8f2a a3e3835 2c1d307 aff910a a628179 4813a75 3d0299d e93080a 235cac7 71c633b cf3d3cd). Judged on every run besides the matrix: in-list completeness on the ORMs (every element incl. null "
@@ -181,7 +186,7 @@ CHECKS = {
    note="Trusted: Lean kernel, standard axioms, Spec/ODataSem.lean (reference semantics, profile decisions of DESIGN §4), Spec/SqliteSem.lean (environment model of SQLite, validated against sqlite3 "
         "each run), Spec/SqlLex+SqlParse, harness. semOkB excludes negative substring positions (unspecified), NUL, wrong storage classes, and the two LIKE known findings (ASCII case folding; "
         "wildcards in a computed pattern) which have Lean witnesses. Dates and 64-bit overflow are outside the semantic model (their translation is covered structurally by C09); fractional values only through the numeric stream (judged, not proved). "
-        "Known finding: round(x) of a negative x on the SQLite dialect (TRUNC(x + 0.5), pinned). fix: a701528 c4949ac 329d7a6 fae5465.",
+        "fix: a701528 c4949ac d7f5487 (null eq x rendered NULL = x). Known finding: round(x) of a negative x on the SQLite dialect (TRUNC(x + 0.5), pinned). fix: a701528 c4949ac 329d7a6 fae5465.",
    design="§6 C01", technique="Lean 4 proof (end-to-end: printer model -> character-level lexing -> precedence-climbing parse -> semantic preservation by mutual induction over a typed grammar) + tie theorems + differential execution against sqlite3"),
  "C02": dict(
    text="Lean 4: model of AstToDjangoQVisitor (Model/Orm.lean djBuild: F / Value parameters / lookups / Q composition / function table with index shifts / type checks / refusals) "
@@ -223,7 +228,8 @@ CHECKS = {
         "proved necessary (dj_sound_false_without_keysOk / sa_sound_false_without_keysOk); the hypotheses lamVarsPlain (lambda variables without namespace: all the parser builds) and evalR-defined "
         "(every lambda owner is a to-one path ending in a collection) are NEEDED: the statements without them are refuted in Lean (dj_sound_original_false_toOne / _ns, sa_sound_original_false_toOne). Executed on every run: every leaf of the relational grammar and seeded compositions on a shape database and random "
         "databases through Django, select(Model) and session.query(Model); returned parents compared with Spec.evalR and with the plan models; four other root models whose collections / "
-        "relationships share names with the first one's, in sequence in one process.",
+        "relationships share names with the first one's, in sequence in one process; a to-one relationship ITSELF compared with null / a key value (o eq null, 3 eq o, dept eq 10 where the "
+        "key is a natural key, w/o eq 1), alone and combined, judged through its foreign-key column.",
    note="Trusted: Lean kernel, standard axioms, Spec/RelSem + Spec/RelElab (reference semantics, verification schema), Spec/OrmRelSem (environment model of the ORMs' join / EXISTS machinery, validated each run), harness. "
         "Scalar leaves are C02 / C03's subject. Hypothesis lambdaClean (bodies two-valued on the related rows: the property quantifies over non-null child columns). Known finding: SQLAlchemy joins a table "
         "twice without alias when two paths reach it. fix: 1659103 4c4c29b 10e169e f6a5118 32ff21e (lambdas over a to_field foreign key on Django).",
